@@ -392,3 +392,16 @@ Theorem C07_scan_string_quote_fixed : string_drops_quote = true ->
   read_file w_include = ([EInclude [102] (Some [1; 120; 0])], EEof).
 Proof. exact scan_string_quote_fixed. Qed.
 Print Assumptions C07_scan_string_quote_fixed.
+
+Theorem C07_empty_label_rejected : name_rejects_empty_label = true.
+Proof. exact empty_label_rejected. Qed.
+Print Assumptions C07_empty_label_rejected.
+
+Theorem C07_empty_label_fixed : name_rejects_empty_label = true -> read_file w_dots = ([], EErr 3).
+Proof. exact empty_label_fixed. Qed.
+Print Assumptions C07_empty_label_fixed.
+
+Theorem C07_empty_label_refuted : name_rejects_empty_label = false ->
+  read_file w_dots = ([ERecord [1; 97; 0; 1; 98; 0] 1 1 1 [1; 2; 3; 4]], EEof).
+Proof. exact empty_label_refuted. Qed.
+Print Assumptions C07_empty_label_refuted.
